@@ -828,3 +828,200 @@ Proof.
     intros Hp. apply scan_exact. eauto.
   - intros Hp r Hi. eapply scan_none; [exact E|]. eapply Permutation_in; [symmetry|]; eauto.
 Qed.
+
+(* ------------------------------------------------------------------ *)
+(** * the model satisfies the property predicate of Spec.v *)
+
+Fixpoint keys_distinct (l : list (str * str)) : bool :=
+  match l with [] => true
+  | kv :: r => negb (existsb (fun kv' => str_eqb (fst kv') (fst kv)) r) && keys_distinct r end.
+
+Fixpoint vlookup (m : list (str * str)) (k : str) : option str :=
+  match m with [] => None | (k', v) :: r => if str_eqb k' k then Some v else vlookup r k end.
+
+Lemma vmap_set_lookup m k v k0 :
+  vlookup (vmap_set m k v) k0 = if str_eqb k k0 then Some v else vlookup m k0.
+Proof.
+  induction m as [|[k' v'] m IH]; cbn [vmap_set vlookup].
+  - reflexivity.
+  - destruct (str_eqb k' k) eqn:E.
+    + apply str_eqb_eq in E as ->. cbn [vlookup]. destruct (str_eqb k k0); reflexivity.
+    + cbn [vlookup]. rewrite IH. destruct (str_eqb k' k0) eqn:E0; [|reflexivity].
+      apply str_eqb_eq in E0 as ->. now rewrite (proj2 (str_eqb_neq k k0)) by (apply str_eqb_neq in E; congruence).
+Qed.
+
+Lemma vmap_set_keys m k v k0 : In k0 (map fst (vmap_set m k v)) <-> k0 = k \/ In k0 (map fst m).
+Proof.
+  induction m as [|[k' v'] m IH]; cbn [vmap_set map fst In].
+  - split; [intros [<-|[]]; now left| intros [->|[]]; now left].
+  - destruct (str_eqb k' k) eqn:E.
+    + apply str_eqb_eq in E as ->. cbn [map fst In]. intuition (subst; auto).
+    + cbn [map fst In]. rewrite IH. intuition (subst; auto).
+Qed.
+
+Lemma vmap_set_nodup m k v : NoDup (map fst m) -> NoDup (map fst (vmap_set m k v)).
+Proof.
+  induction m as [|[k' v'] m IH]; cbn [vmap_set map fst]; intros H.
+  - constructor; [intros []|constructor].
+  - inversion H as [|? ? Hni Hnd]; subst. destruct (str_eqb k' k) eqn:E.
+    + apply str_eqb_eq in E as ->. cbn [map fst]. now constructor.
+    + apply str_eqb_neq in E. cbn [map fst]. constructor; [|now apply IH].
+      rewrite vmap_set_keys. intros [->|Hin]; [congruence|contradiction].
+Qed.
+
+Lemma vars_map_lookup : forall ns vs m k0,
+  vlookup (vars_map ns vs m) k0 = last_binding ns vs k0 (vlookup m k0).
+Proof.
+  induction ns as [|n ns IH]; intros vs m k0; cbn [vars_map last_binding]; [reflexivity|].
+  destruct vs as [|v vs]; [reflexivity|]. rewrite IH, vmap_set_lookup. reflexivity.
+Qed.
+Lemma vars_map_nodup : forall ns vs m, NoDup (map fst m) -> NoDup (map fst (vars_map ns vs m)).
+Proof.
+  induction ns as [|n ns IH]; intros vs m H; cbn [vars_map]; [exact H|].
+  destruct vs as [|v vs]; [exact H|]. apply IH. now apply vmap_set_nodup.
+Qed.
+Lemma vars_map_keys : forall ns vs m k0, length ns = length vs ->
+  (In k0 ns \/ In k0 (map fst m)) -> In k0 (map fst (vars_map ns vs m)).
+Proof.
+  induction ns as [|n ns IH]; intros vs m k0 Hl H; cbn [vars_map].
+  - destruct H as [[]|H]; exact H.
+  - destruct vs as [|v vs]; [discriminate|]. cbn in Hl. apply IH; [lia|].
+    rewrite vmap_set_keys. destruct H as [[<-|H]|H]; auto.
+Qed.
+
+Lemma vlookup_in m k v : NoDup (map fst m) -> In (k, v) m -> vlookup m k = Some v.
+Proof.
+  induction m as [|[k' v'] m IH]; cbn [vlookup map fst]; intros Hnd Hin; [destruct Hin|].
+  inversion Hnd as [|? ? Hni Hnd']; subst. destruct Hin as [[= -> ->]|Hin].
+  - now rewrite str_eqb_refl.
+  - destruct (str_eqb k' k) eqn:E; [|now apply IH].
+    apply str_eqb_eq in E as ->. exfalso. apply Hni. apply in_map_iff. exists (k, v). now split.
+Qed.
+
+Lemma keys_distinct_nodup m : NoDup (map fst m) -> keys_distinct m = true.
+Proof.
+  induction m as [|[k v] m IH]; cbn [keys_distinct map fst]; intros H; [reflexivity|].
+  inversion H as [|? ? Hni Hnd]; subst. rewrite IH by assumption. rewrite andb_true_r.
+  apply negb_true_iff. destruct (existsb _ m) eqn:E; [|reflexivity].
+  apply existsb_exists in E as ([k' v'] & Hin & Hk). cbn in Hk. apply str_eqb_eq in Hk as ->.
+  exfalso. apply Hni. apply in_map_iff. exists (k, v'). now split.
+Qed.
+
+Lemma nodup_fix_eq : forall obs : list (str * str),
+  (fix nodup (l : list (str * str)) : bool :=
+     match l with [] => true
+     | kv :: r => negb (existsb (fun kv' => str_eqb (fst kv') (fst kv)) r) && nodup r end) obs
+  = keys_distinct obs.
+Proof. induction obs as [|kv r IH]; [reflexivity|]. cbn [keys_distinct]. now rewrite <- IH. Qed.
+
+Lemma vars_map_is_map names vals : length names = length vals ->
+  is_map_of names vals (vars_map names vals []) = true.
+Proof.
+  intros Hl. unfold is_map_of. rewrite nodup_fix_eq.
+  assert (Hnd : NoDup (map fst (vars_map names vals []))) by (apply vars_map_nodup; constructor).
+  rewrite !andb_true_iff. split; [split|].
+  - apply forallb_forall. intros [k v] Hin. cbn [fst snd].
+    pose proof (vlookup_in _ _ _ Hnd Hin) as E. rewrite vars_map_lookup in E. cbn [vlookup] in E.
+    rewrite E. apply str_eqb_refl.
+  - apply forallb_forall. intros n Hin. apply existsb_exists.
+    assert (Hk : In n (map fst (vars_map names vals []))) by (apply vars_map_keys; auto).
+    apply in_map_iff in Hk as (kv & <- & Hkv). exists kv. split; [exact Hkv| apply str_eqb_refl].
+  - now apply keys_distinct_nodup.
+Qed.
+
+Definition sroute_of (r : route) : sroute := mkS (r_pat r) (r_h r) (r_parts r).
+Definition sregs_of (st : rstate) : list sroute := map sroute_of (routes_of st).
+
+Lemma wf_pats st : wf st -> NoDup (map r_pat (routes_of st)).
+Proof.
+  intros [Hnd Hr]. unfold routes_of. rewrite map_map.
+  replace (map (fun x => r_pat (snd x)) (st_routes st)) with (map fst (st_routes st)); [exact Hnd|].
+  apply map_ext_in. intros [k r] Hin. cbn. symmetry. now apply (Hr k r).
+Qed.
+
+Lemma filter_none (tmpl : str) rs : (forall x, In x rs -> r_pat x <> tmpl) ->
+  filter (fun x => str_eqb (s_pat x) tmpl) (map sroute_of rs) = [].
+Proof.
+  induction rs as [|r0 rs IH]; intros H; [reflexivity|]. cbn [map filter sroute_of s_pat].
+  rewrite (proj2 (str_eqb_neq _ _)) by (apply H; now left). apply IH. intros x Hx. apply H. now right.
+Qed.
+
+Lemma filter_unique r : forall rs, NoDup (map r_pat rs) -> In r rs ->
+  filter (fun x => str_eqb (s_pat x) (r_pat r)) (map sroute_of rs) = [sroute_of r].
+Proof.
+  induction rs as [|r0 rs IH]; intros Hnd Hin; [destruct Hin|].
+  cbn [map] in Hnd. inversion Hnd as [|? ? Hni Hnd']; subst.
+  cbn [map filter]. change (s_pat (sroute_of r0)) with (r_pat r0).
+  destruct Hin as [->|Hin].
+  - rewrite str_eqb_refl. f_equal. apply filter_none. intros x Hx E. apply Hni. rewrite <- E. now apply in_map.
+  - rewrite (proj2 (str_eqb_neq _ _)); [now apply IH|].
+    intros E. apply Hni. rewrite E. now apply in_map.
+Qed.
+
+Lemma ev_eqb_refl e : ev_eqb e e = true.
+Proof. destruct e; cbn; apply Z.eqb_refl. Qed.
+Lemma trace_eqb_refl t : list_eqb ev_eqb t t = true.
+Proof. induction t as [|e t IH]; cbn [list_eqb]; [reflexivity|]. now rewrite ev_eqb_refl, IH. Qed.
+
+Lemma handlers_of_in l : handlers_of (map MwIn l) = [].
+Proof. induction l; [reflexivity|exact IHl]. Qed.
+Lemma handlers_of_out l : handlers_of (map MwOut l) = [].
+Proof. induction l; [reflexivity|exact IHl]. Qed.
+
+Lemma spec_trace_pass mws h : snd (passing_prefix mws) = true -> handlers_of (spec_trace mws (Some h)) = [h].
+Proof.
+  unfold spec_trace. destruct (passing_prefix mws) as [ids pass]. cbn [snd]. intros ->.
+  now rewrite !handlers_of_app, handlers_of_in, handlers_of_out.
+Qed.
+Lemma spec_trace_block mws h : snd (passing_prefix mws) = false -> spec_trace mws h = spec_trace mws None.
+Proof. unfold spec_trace. destruct (passing_prefix mws) as [ids pass]. cbn [snd]. now intros ->. Qed.
+
+Lemma filter_nomatch rs path : (forall r, In r rs -> path_match r path = false) ->
+  filter (fun r => spec_matches (s_parts r) path) (map sroute_of rs) = [].
+Proof.
+  induction rs as [|r0 rs IH]; intros Hno; [reflexivity|]. cbn [map filter].
+  change (s_parts (sroute_of r0)) with (r_parts r0). rewrite spec_matches_iff, Hno by now left.
+  apply IH. intros r Hr. apply Hno. now right.
+Qed.
+
+(* the model satisfies the property predicate: for every reachable state,
+   middleware list (also with middlewares that answer themselves), iteration
+   order and request *)
+Theorem dispatch_spec st mws order segs : wf st -> Permutation order (routes_of st) ->
+  let path := filter_path (path_of segs) in
+  dispatch_class (sregs_of st) (st_default st) mws path
+    (fst (serve st mws order segs)) (snd (serve st mws order segs)) = 0%N.
+Proof.
+  intros Hwf Hp path. unfold serve. fold path.
+  destruct (scan order path None O) as [r|] eqn:E; cbn [finish_serve fst snd].
+  - assert (Hmax : maximal_match (routes_of st) path r) by (apply scan_exact; eauto).
+    destruct Hmax as (Hin & Hm & Hmax).
+    destruct (match_result_vars r path Hm) as (vals & Hex & Hd & Hlen & ->).
+    unfold dispatch_class. unfold sregs_of. rewrite (filter_unique r _ (wf_pats st Hwf) Hin).
+    change (s_parts (sroute_of r)) with (r_parts r). change (s_pat (sroute_of r)) with (r_pat r).
+    change (s_h (sroute_of r)) with (r_h r).
+    rewrite spec_matches_iff, Hm. cbn [negb].
+    match goal with |- context [existsb ?f ?l] => destruct (existsb f l) eqn:Eex end.
+    { exfalso. apply existsb_exists in Eex as (x & Hx & Hlt). apply filter_In in Hx as [Hx Hsm].
+      apply in_map_iff in Hx as (r' & <- & Hr'). change (s_parts (sroute_of r')) with (r_parts r') in Hsm.
+      rewrite spec_matches_iff in Hsm. change (s_pat (sroute_of r')) with (r_pat r') in Hlt.
+      apply Nat.ltb_lt in Hlt. specialize (Hmax r' Hr' Hsm). lia. }
+    rewrite str_eqb_refl. cbn [andb].
+    assert (Hv : vars_ok (sroute_of r) path (vars_map (var_names (r_parts r)) vals []) = true).
+    { unfold vars_ok. apply existsb_exists. exists vals. split; [now apply decomps_spec|].
+      apply vars_map_is_map. now symmetry. }
+    rewrite Hv. cbn [negb]. rewrite run_chain_spec.
+    destruct (snd (passing_prefix mws)) eqn:Epass.
+    + rewrite spec_trace_pass by assumption. rewrite Z.eqb_refl. cbn [negb]. now rewrite trace_eqb_refl.
+    + rewrite (spec_trace_block mws (Some (r_h r))) by assumption. now rewrite trace_eqb_refl.
+  - assert (Hno : forall r, In r (routes_of st) -> path_match r path = false).
+    { intros r Hin. eapply scan_none; [exact E|]. eapply Permutation_in; [symmetry|]; eauto. }
+    unfold dispatch_class, match_result.
+    assert (Hf : filter (fun r => spec_matches (s_parts r) path) (sregs_of st) = []).
+    { unfold sregs_of. now apply filter_nomatch. }
+    rewrite Hf. cbn [is_nil negb].
+    destruct (st_default st) as [d|]; [|reflexivity].
+    rewrite run_chain_spec. destruct (snd (passing_prefix mws)) eqn:Epass.
+    + rewrite spec_trace_pass by assumption. rewrite Z.eqb_refl. cbn [negb]. now rewrite trace_eqb_refl.
+    + rewrite (spec_trace_block mws (Some d)) by assumption. now rewrite trace_eqb_refl.
+Qed.
